@@ -165,6 +165,10 @@ func (pc *parentController) syncRevisions(parent *unstructured.Unstructured, obs
 				pr.syncError = err
 				return
 			}
+			if syncResult == nil {
+				pr.syncError = fmt.Errorf("sync hook not defined")
+				return
+			}
 			pr.syncResult = syncResult
 			pr.desiredChildMap = commonv1.MakeRelativeObjectMap(parent, syncResult.Children)
 		}(pr)
